@@ -7,6 +7,7 @@ import (
 	"fmt"
 	"go/ast"
 	"go/build/constraint"
+	"go/constant"
 	"go/importer"
 	"go/parser"
 	"go/token"
@@ -16,8 +17,8 @@ import (
 	"sort"
 	"strings"
 
-	"golang.org/x/tools/go/ssa"
 	"golang.org/x/tools/go/packages"
+	"golang.org/x/tools/go/ssa"
 	"golang.org/x/tools/go/ssa/ssautil"
 )
 
@@ -31,6 +32,16 @@ type xorFile struct {
 
 var knownArch = map[string]bool{"386": true, "amd64": true, "arm": true, "arm64": true, "ppc64": true, "ppc64le": true, "s390x": true, "wasm": true, "mips": true, "riscv64": true, "loong64": true, "mips64": true, "mipsle": true, "mips64le": true}
 
+// xorOverlay: file contents that replace what is on disk (the self-test analyses seeded variants this way).
+var xorOverlay map[string][]byte
+
+func readXorSource(path string) ([]byte, error) {
+	if b, ok := xorOverlay[path]; ok {
+		return b, nil
+	}
+	return os.ReadFile(path)
+}
+
 func readXorFiles() ([]xorFile, error) {
 	dir := filepath.Join(repoDir(), "utils", "xor")
 	ents, err := os.ReadDir(dir)
@@ -43,7 +54,7 @@ func readXorFiles() ([]xorFile, error) {
 		if !strings.HasSuffix(n, ".go") || strings.HasSuffix(n, "_test.go") {
 			continue
 		}
-		src, err := os.ReadFile(filepath.Join(dir, n))
+		src, err := readXorSource(filepath.Join(dir, n))
 		if err != nil {
 			return nil, err
 		}
@@ -84,6 +95,7 @@ func readXorFiles() ([]xorFile, error) {
 
 func runC20(c *Ctx) {
 	p := c.P
+	xorOverlay = p.Cfg.Overlay
 	files, err := readXorFiles()
 	o := c.Obl("R1", "utils/xor", "for every assignment of the build tags that occur (go1.20, gccgo) and every GOARCH class (arm / other) exactly one file defining XorBytes is selected", 3)
 	if err != nil {
@@ -322,7 +334,11 @@ func standaloneXor(name string, files []xorFile) (*ssa.Function, *token.FileSet,
 				continue
 			}
 		}
-		af, err := parser.ParseFile(fset, filepath.Join(dir, f.Name), nil, parser.ParseComments)
+		src, err := readXorSource(filepath.Join(dir, f.Name))
+		if err != nil {
+			return nil, nil, nil, err
+		}
+		af, err := parser.ParseFile(fset, filepath.Join(dir, f.Name), src, parser.ParseComments)
 		if err != nil {
 			return nil, nil, nil, err
 		}
@@ -530,21 +546,39 @@ func xorLoops(o *Obligation, g *ssa.Function, pos func(token.Pos) string) {
 			o.Fail(token.NoPos, "%s: the xor loop of %s does not use the same index for destination and both operands", pos(in.Pos()), g.Name())
 			return
 		}
-		ph, ok := origin(ia.Index).(*ssa.Phi)
-		if !ok || len(ph.Edges) != 2 {
-			o.Fail(token.NoPos, "%s: loop index of %s not recognised", pos(in.Pos()), g.Name())
-			return
-		}
 		var init ssa.Value
+		var idxVal ssa.Value // the value compared with the bound
 		stepOK := false
-		for _, e := range ph.Edges {
-			if bo, ok := e.(*ssa.BinOp); ok && bo.Op == token.ADD && sameOrigin(bo.X, ssa.Value(ph)) {
-				if k, ok := constInt(bo.Y); ok && k == 1 {
-					stepOK = true
-					continue
+		if ph, ok := origin(ia.Index).(*ssa.Phi); ok && len(ph.Edges) == 2 {
+			// for i := init; i < bound; i++
+			idxVal = ph
+			for _, e := range ph.Edges {
+				if bo, ok := e.(*ssa.BinOp); ok && bo.Op == token.ADD && sameOrigin(bo.X, ssa.Value(ph)) {
+					if k, ok := constInt(bo.Y); ok && k == 1 {
+						stepOK = true
+						continue
+					}
+				}
+				init = e
+			}
+		} else if bo, ok := origin(ia.Index).(*ssa.BinOp); ok && bo.Op == token.ADD {
+			// for i := range s: the index is phi(-1, i) + 1
+			if k, isC := constInt(bo.Y); isC && k == 1 {
+				if ph, ok := bo.X.(*ssa.Phi); ok && len(ph.Edges) == 2 {
+					for _, e := range ph.Edges {
+						if c0, isC := constInt(e); isC && c0 == -1 {
+							init = ssa.NewConst(constant.MakeInt64(0), types.Typ[types.Int])
+						} else if e == ssa.Value(bo) {
+							stepOK = true
+						}
+					}
+					idxVal = bo
 				}
 			}
-			init = e
+		}
+		if idxVal == nil {
+			o.Fail(token.NoPos, "%s: loop index of %s not recognised", pos(in.Pos()), g.Name())
+			return
 		}
 		if !stepOK || init == nil {
 			o.Fail(token.NoPos, "%s: loop of %s does not step by 1", pos(in.Pos()), g.Name())
@@ -553,7 +587,7 @@ func xorLoops(o *Obligation, g *ssa.Function, pos func(token.Pos) string) {
 		var bound ssa.Value
 		for _, ft := range guards(in) {
 			cm, ok := normCmp(ft.Cond, ft.Val)
-			if ok && cm.Op == token.LSS && sameOrigin(cm.X, ssa.Value(ph)) {
+			if ok && cm.Op == token.LSS && sameOrigin(cm.X, idxVal) {
 				bound = cm.Y
 			}
 		}
@@ -567,8 +601,18 @@ func xorLoops(o *Obligation, g *ssa.Function, pos func(token.Pos) string) {
 				es = 0 // word-sized
 			}
 		}
-		loops = append(loops, loop{linOf(init, sym), linOf(bound, sym), es, in.Pos(), in})
-		o.Sites = append(o.Sites, fmt.Sprintf("%s %s: loop i from %s while i < %s", pos(in.Pos()), g.Name(), linOf(init, sym), linOf(bound, sym)))
+		boundF := linOf(bound, sym)
+		if lc, ok := bound.(*ssa.Call); ok && isCall(lc, "builtin.len") {
+			// len(x[lo:hi]) = hi - lo
+			if sl, ok := lc.Call.Args[0].(*ssa.Slice); ok && sl.High != nil {
+				boundF = linOf(sl.High, sym)
+				if sl.Low != nil {
+					boundF = boundF.add(linOf(sl.Low, sym), -1)
+				}
+			}
+		}
+		loops = append(loops, loop{linOf(init, sym), boundF, es, in.Pos(), in})
+		o.Sites = append(o.Sites, fmt.Sprintf("%s %s: loop i from %s while i < %s", pos(in.Pos()), g.Name(), linOf(init, sym), boundF))
 	})
 	// every store of a xor routine into memory it did not allocate is one of the recognised element stores
 	recognised := map[ssa.Instruction]bool{}
@@ -593,20 +637,93 @@ func xorLoops(o *Obligation, g *ssa.Function, pos func(token.Pos) string) {
 				}
 			case *ssa.Call:
 				if sc := x.Call.StaticCallee(); sc != nil && sc.Pkg == g.Pkg && len(sc.Blocks) > 0 && sc != g {
+					if sc.Signature.Params().Len() == 4 {
+						if !xorChecked[sc] {
+							xorChecked[sc] = true
+							xorLoops(o, sc, pos) // a xor routine of its own: its loops are checked against its own n
+						}
+						return
+					}
 					chk(sc, d+1)
 				}
 			}
 		})
 	}
 	chk(g, 0)
-	if len(loops) == 0 {
+	// a routine that hands (parts of) the work to other routines: compose the byte intervals
+	nF := linSym("n")
+	W := types.SizesFor("gc", "amd64").Sizeof(types.Typ[types.Uintptr])
+	type ival struct{ from, to linForm }
+	var parts []ival
+	delegates := false
+	okCompose := true
+	instrsOf(g, func(in ssa.Instruction) {
+		cl, ok := in.(*ssa.Call)
+		if !ok {
+			return
+		}
+		h := cl.Call.StaticCallee()
+		if h == nil || h.Pkg != g.Pkg || h == g || len(h.Blocks) == 0 || h.Signature.Params().Len() != 4 {
+			return
+		}
+		delegates = true
+		tot, ok := xorTotal(h, 0)
+		if !ok {
+			okCompose = false
+			return
+		}
+		// offset: all three slices re-sliced from the same low bound (or not at all)
+		var off linForm
+		for k := 0; k < 3; k++ {
+			lo := linConst(0)
+			if sl, ok := cl.Call.Args[k].(*ssa.Slice); ok && sl.Low != nil {
+				lo = linOf(sl.Low, sym)
+			}
+			if k == 0 {
+				off = lo
+			} else if !lo.eq(off) {
+				okCompose = false
+			}
+		}
+		cnt := linOf(cl.Call.Args[3], sym)
+		parts = append(parts, ival{off, off.add(cnt.scale(tot), 1)})
+		o.Sites = append(o.Sites, fmt.Sprintf("%s %s: delegates bytes [%s, %s) to %s", pos(cl.Pos()), g.Name(), off, off.add(cnt.scale(tot), 1), h.Name()))
+	})
+	if delegates {
+		for _, l := range loops {
+			k := int64(1)
+			if l.elem == 0 {
+				k = W
+			}
+			parts = append(parts, ival{l.init.scale(k), l.bound.scale(k)})
+		}
+		cur := linConst(0)
+		used := make([]bool, len(parts))
+		for step := 0; step < len(parts) && okCompose; step++ {
+			found := false
+			for i, p := range parts {
+				if !used[i] && normRem(p.from).eq(normRem(cur)) {
+					used[i], cur, found = true, p.to, true
+					break
+				}
+			}
+			if !found {
+				okCompose = false
+			}
+		}
+		if !okCompose || !normRem(cur).eq(normRem(nF)) {
+			o.Fail(token.NoPos, "%s: the parts %s hands to other routines and its own loops do not chain to exactly [0, n) bytes", pos(g.Pos()), g.Name())
+		}
 		return
 	}
-	nF := linSym("n")
+	if len(loops) == 0 {
+		o.Fail(token.NoPos, "%s: no element-wise xor loop recognised in %s: the routine does not (recognisably) produce dst[i] = a[i] ^ b[i] for i in [0, n)", pos(g.Pos()), g.Name())
+		return
+	}
 	switch len(loops) {
 	case 1:
 		l := loops[0]
-		if !l.init.eq(linConst(0)) || !l.bound.eq(nF) || l.elem != 1 {
+		if !l.init.eq(linConst(0)) || !l.bound.eq(nF) {
 			o.Fail(token.NoPos, "%s: the byte loop of %s covers [%s, %s), not [0, n)", pos(l.at), g.Name(), l.init, l.bound)
 		}
 	case 2:
@@ -649,4 +766,45 @@ func checkDelegationNoPos(o *Obligation, f *ssa.Function) {
 	if tmp.Failed {
 		o.Fail(token.NoPos, "%s", tmp.Why)
 	}
+}
+
+var xorChecked = map[*ssa.Function]bool{}
+
+// xorTotal: the number of bytes a xor routine covers per unit of its 4th parameter when it covers exactly
+// [0, k*n): 1 for a byte routine, the word size for a word routine (its own loops only).
+func xorTotal(h *ssa.Function, depth int) (int64, bool) {
+	W := types.SizesFor("gc", "amd64").Sizeof(types.Typ[types.Uintptr])
+	n := h.Params[3]
+	sym := func(v ssa.Value) (string, bool) {
+		if sameOrigin(v, ssa.Value(n)) {
+			return "n", true
+		}
+		return defaultSym(v)
+	}
+	tot, found := int64(0), 0
+	instrsOf(h, func(in ssa.Instruction) {
+		st, ok := in.(*ssa.Store)
+		if !ok {
+			return
+		}
+		ia, ok := st.Addr.(*ssa.IndexAddr)
+		if !ok {
+			return
+		}
+		if x, ok := origin(st.Val).(*ssa.BinOp); !ok || x.Op != token.XOR {
+			return
+		}
+		found++
+		tot = 1
+		if sl, ok := ia.X.Type().Underlying().(*types.Slice); ok {
+			if bt, ok := sl.Elem().Underlying().(*types.Basic); ok && bt.Kind() == types.Uintptr {
+				tot = W
+			}
+		}
+	})
+	_ = sym
+	if found != 1 {
+		return 0, false
+	}
+	return tot, true
 }
